@@ -30,10 +30,4 @@ def classify(name, case, msg):
             and set(case["aliased_results"]) <= set(case.get("rank1_reshapes", [])) \
             and set(case.get("bad_survivors", ["?"])) <= set(case["aliased_results"]):
         return "F-reshape-1d-alias"
-    # Constituent arrays of an element type the MLIR runtime re-views (SparseV.Own.Cmd.rawField / castView, part of
-    # ExcludedHistory): the keep-alive hangs on the re-view, views based on the raw array underneath outlive it.
-    # Region: the history took such arrays (`cast_views`, observed: `view.base` is an ndarray) AND the ownership model run on the
-    # same history says that exactly these survivors read a released buffer (`model_predicts`).
-    if name in ("ownership:freed-while-alive", "ownership:survivors") and case.get("cast_views") and case.get("model_predicts") is True:
-        return "F-c20-reviewed-dtype-keepalive"
     return None
